@@ -33,7 +33,7 @@ func (c06) Rule() string {
 }
 func (c06) Batches(string) int { return 32 }
 func (c06) Required(string) []string {
-	return []string{"runs", "matrix_runs", "generated_runs", "outcome_error", "outcome_value", "followup_ok", "callback_panics_raised", "object_method_panics_raised", "ctx.invoker", "ctx.finally", "ctx.deep1023"}
+	return []string{"runs", "matrix_runs", "generated_runs", "outcome_error", "outcome_value", "followup_ok", "callback_panics_raised", "object_method_panics_raised", "ctx.invoker", "ctx.finally", "ctx.deep1023", "delivery_pairs", "host_invocations"}
 }
 func (c06) Assumptions() []string {
 	return []string{"Go stack exhaustion through unbounded NATIVE recursion (cyclic containers) is outside the property's budget and not generated", "Go callbacks honour the Object contract (never return nil object with nil error)"}
@@ -315,6 +315,96 @@ func (m c06) run(c *core.Ctx, src, fault, context string, mm *ugo.ModuleMap, arg
 	return nontrivial
 }
 
+const c06hdr = "global (zero, neg, arr, G, OBJ, PANICSTR, PANICERR, PANICRT, PANICCUSTOM, PANICNIL, ERRFN, INVOKE)\nthrowing := func() { throw error(\"thrown\") }\n"
+
+// delivery: a fault raised inside a script function that has its own try/catch/finally is delivered to that catch and
+// finally in the same way whether the function is called by the script, run on a child VM through an Invoker inside a Go
+// callback, or invoked by the host itself through an Invoker after the run (recovery enabled on the VM in all cases).
+func (m c06) delivery(c *core.Ctx, fault string, mm *ugo.ModuleMap) {
+	fn := "f := func() {\n  try {\n    return " + fault + "\n  } catch e {\n    return \"caught:\" + e.Name\n  } finally {\n    G = G + 1\n  }\n}\n"
+	type res struct {
+		out string
+		pan string
+		vm  *ugo.VM
+		val ugo.Object
+	}
+	runSrc := func(tail string) (r res, ok bool) {
+		cr := safeCompile([]byte(c06hdr+fn+tail), ugo.CompilerOptions{ModuleMap: mm, NoOptimize: true})
+		if cr.err != nil || cr.panicv != "" {
+			return r, false
+		}
+		st := &c06stats{}
+		g := c06globals(st)
+		r.vm = ugo.NewVM(cr.bc).SetRecover(true)
+		func() {
+			defer func() {
+				if x := recover(); x != nil {
+					r.pan = fmt.Sprint(x)
+				}
+			}()
+			v, err := r.vm.Run(g)
+			r.val = v
+			if err != nil {
+				n, _ := canon.ErrParts(err)
+				r.out = "error:" + n
+			} else {
+				r.out = "value:" + canon.Value(v)
+			}
+		}()
+		return r, true
+	}
+	wit := func(why, detail string) c06wit {
+		return c06wit{Src: c06hdr + fn, Fault: fault, Context: "delivery", Why: why, Detail: detail}
+	}
+	a, ok1 := runSrc("return [f(), G]")
+	b, ok2 := runSrc("return [INVOKE(f), G]")
+	if !ok1 || !ok2 {
+		c.Count("discarded_compile_error")
+		return
+	}
+	c.Count("delivery_pairs")
+	if a.pan != "" || b.pan != "" {
+		c.Violation("C06|host-panic|delivery|"+core.NormMsg(a.pan+b.pan), "panic escaped VM.Run with recovery enabled: "+trunc(a.pan+b.pan, 200), wit("host panic", a.pan+b.pan))
+		return
+	}
+	if a.out != b.out {
+		c.Violation("C06|delivery|invoker-differs", "a fault inside a function with its own try/catch/finally is handled differently when the function runs on a child VM: direct "+trunc(a.out, 120)+" / through Invoker "+trunc(b.out, 120), wit("direct vs Invoker", "direct: "+a.out+"\ninvoker: "+b.out))
+		return
+	}
+	// the host invokes the function itself after the run
+	d, ok3 := runSrc("return f()")
+	h, ok4 := runSrc("return f")
+	if !ok3 || !ok4 || h.val == nil || !h.val.CanCall() {
+		return
+	}
+	c.Count("host_invocations")
+	hostOut, hostPan := "", ""
+	func() {
+		defer func() {
+			if x := recover(); x != nil {
+				hostPan = fmt.Sprint(x)
+			}
+		}()
+		inv := ugo.NewInvoker(h.vm, h.val)
+		inv.Acquire()
+		defer inv.Release()
+		v, err := inv.Invoke()
+		if err != nil {
+			n, _ := canon.ErrParts(err)
+			hostOut = "error:" + n
+		} else {
+			hostOut = "value:" + canon.Value(v)
+		}
+	}()
+	if hostPan != "" {
+		c.Violation("C06|host-panic|host-invoke|"+core.NormMsg(hostPan), "panic escaped Invoker.Invoke on a VM with recovery enabled: "+trunc(hostPan, 200), wit("host panic in Invoke", hostPan))
+		return
+	}
+	if hostOut != d.out {
+		c.Violation("C06|delivery|host-invoke-differs", "fault handled differently when the host invokes the function: in script "+trunc(d.out, 120)+" / host Invoke "+trunc(hostOut, 120), wit("direct vs host Invoke", "direct: "+d.out+"\nhost: "+hostOut))
+	}
+}
+
 func (m c06) Run(c *core.Ctx) {
 	mm := ugo.NewModuleMap()
 	mm.Add("strings", stdlibModule("strings"))
@@ -351,6 +441,26 @@ func (m c06) Run(c *core.Ctx) {
 				c.Sample(map[string]string{"fault": trunc(f, 80), "context": cx.name})
 			}
 		}
+	}
+	for _, f := range c06faults {
+		if strings.Contains(f, "var r;") {
+			continue // depth-dependent: a child VM starts with an empty stack
+		}
+		if f == "PANICNIL()" {
+			// panic(nil) with the module's Go language version (< 1.21): recover() returns nil, no recovery code can tell
+			// it from "no panic"; where the unwinding stops then depends on which deferred recover comes first. Not comparable.
+			continue
+		}
+		idx++
+		if idx%c.NBatch != c.Batch {
+			continue
+		}
+		f := f
+		if !c.Begin(func() string { return "delivery " + f }) {
+			continue
+		}
+		m.delivery(c, f, mm)
+		c.Nontrivial("delivery " + f)
 	}
 	// generated programs with injected faults
 	n := c.Pick(300, 100000)
